@@ -605,3 +605,111 @@ Definition bound_by_gen (ty : Z) (stream : Z) (is_comm : bool) : Z :=
 '''
     write_if_changed(os.path.join(GEN, "CpRules_gen.v"), text)
     return "gen/CpRules_gen.v"
+
+
+# ---- kernel classification of hta/utils/utils.py -> coq/gen/KernelRules_gen.v ----
+def gen_kernel_rules() -> str:
+    """Reads KernelType (member values = codes), the three regex wrappers (which constant each uses, and how its match result is turned into
+    a boolean), the if / elif chain of get_kernel_type and the prefix rules of get_memory_kernel_type.  The regular expressions themselves
+    are checked literally by check_regex_constants (lib/Base.v encodes them)."""
+    path = "hta/utils/utils.py"
+    tree = ast.parse(open(os.path.join(fw.REPO, path)).read())
+    classes = {n.name: n for n in tree.body if isinstance(n, ast.ClassDef)}
+    funcs = {n.name: n for n in tree.body if isinstance(n, ast.FunctionDef)}
+    if "KernelType" not in classes:
+        raise Stop("utils.py: KernelType not found")
+    kcode = {}
+    for st in classes["KernelType"].body:
+        if isinstance(st, ast.Assign) and isinstance(st.value, ast.Constant) and isinstance(st.value.value, int):
+            kcode[st.targets[0].id] = st.value.value
+    if kcode != {"COMMUNICATION": 0, "MEMORY": 1, "COMPUTATION": 2, "OTHER": 3}:
+        raise Stop(f"KernelType members {kcode}")
+
+    def body_of(fn):
+        return [st for st in fn.body if not (isinstance(st, ast.Expr) and isinstance(st.value, ast.Constant))]
+
+    wrappers = {"is_comm_kernel": ("NCCL_KERNEL_RE", "{0}.match(name) is not None"), "is_memory_kernel": ("MEMORY_KERNEL_RE", "{0}.match(name) is not None"),
+                "is_compute_kernel": ("NCCL_COMPUTE_KERNEL_RE", "not {0}.match(name)")}
+    for fn, (const, shape) in wrappers.items():
+        if fn not in funcs or [a.arg for a in funcs[fn].args.args] != ["name"]:
+            raise Stop(f"utils.py: {fn}(name) not found")
+        b = body_of(funcs[fn])
+        if len(b) != 1 or not isinstance(b[0], ast.Return) or ast.unparse(b[0].value) != shape.format(const):
+            raise Stop(f"{fn}: body is not `return {shape.format(const)}`")
+    # get_kernel_type: if is_comm_kernel(name): return KernelType.X.name elif ... else ...
+    g = funcs.get("get_kernel_type")
+    if g is None or [a.arg for a in g.args.args] != ["name"]:
+        raise Stop("utils.py: get_kernel_type(name) not found")
+    tests = {"is_comm_kernel(name)": "comm", "is_memory_kernel(name)": "mem", "is_compute_kernel(name)": "compute"}
+
+    def kret(stmts):
+        if len(stmts) != 1 or not isinstance(stmts[0], ast.Return):
+            raise Stop("get_kernel_type: a branch is not a single return")
+        u = ast.unparse(stmts[0].value)
+        mm = re.fullmatch(r"KernelType\.(\w+)\.name", u)
+        if not mm or mm.group(1) not in kcode:
+            raise Stop(f"get_kernel_type: returns {u}")
+        return str(kcode[mm.group(1)])
+
+    def kchain(node):
+        if not isinstance(node, ast.If) or ast.unparse(node.test) not in tests:
+            raise Stop("get_kernel_type: not an if / elif chain over is_comm_kernel / is_memory_kernel / is_compute_kernel")
+        els = node.orelse
+        rest = kchain(els[0]) if (len(els) == 1 and isinstance(els[0], ast.If)) else kret(els)
+        return f"if {tests[ast.unparse(node.test)]} then {kret(node.body)}\n  else {rest}"
+    gb = body_of(g)
+    if len(gb) != 1:
+        raise Stop("get_kernel_type: expected a single if / elif chain")
+    ktext = kchain(gb[0])
+    # get_memory_kernel_type: prefix rules
+    m = funcs.get("get_memory_kernel_type")
+    if m is None or [a.arg for a in m.args.args] != ["name"]:
+        raise Stop("utils.py: get_memory_kernel_type(name) not found")
+
+    def mblock(stmts, env):
+        if not stmts:
+            raise Stop("get_memory_kernel_type: control falls off the end")
+        st, rest = stmts[0], stmts[1:]
+        if isinstance(st, ast.Assign) and isinstance(st.targets[0], ast.Name) and isinstance(st.value, ast.Constant) and isinstance(st.value.value, int):
+            return mblock(rest, dict(env, **{st.targets[0].id: st.value.value}))
+        if isinstance(st, ast.Return):
+            v = st.value
+            if isinstance(v, ast.Constant) and isinstance(v.value, str):
+                return '"' + v.value + '"'
+            return pref(v, env)
+        if isinstance(st, ast.If) and not st.orelse and len(st.body) == 1 and isinstance(st.body[0], ast.Return):
+            t = st.test
+            if not (isinstance(t, ast.Compare) and len(t.ops) == 1 and isinstance(t.ops[0], (ast.Eq, ast.NotEq)) and isinstance(t.comparators[0], ast.Constant)
+                    and isinstance(t.comparators[0].value, str)):
+                raise Stop(f"get_memory_kernel_type: test {ast.unparse(t)}")
+            c = f'String.eqb ({pref(t.left, env)}) "{t.comparators[0].value}"'
+            if isinstance(t.ops[0], ast.NotEq):
+                c = f"negb ({c})"
+            return f"if {c} then {mblock(list(st.body), env)}\n  else {mblock(rest, env)}"
+        raise Stop(f"get_memory_kernel_type: statement {type(st).__name__}")
+
+    def pref(e, env):
+        if isinstance(e, ast.Subscript) and isinstance(e.value, ast.Name) and e.value.id == "name" and isinstance(e.slice, ast.Slice) and e.slice.lower is None \
+                and e.slice.step is None:
+            up = e.slice.upper
+            if isinstance(up, ast.Constant) and isinstance(up.value, int):
+                return f"take_str {up.value} name"
+            if isinstance(up, ast.Name) and up.id in env:
+                return f"take_str {env[up.id]} name"
+        raise Stop(f"get_memory_kernel_type: expression {ast.unparse(e)}")
+    mtext = mblock(body_of(m), {})
+    text = f'''(* GENERATED by harness/translate.py from hta/utils/utils.py (KernelType, is_comm_kernel / is_memory_kernel / is_compute_kernel,
+   get_kernel_type, get_memory_kernel_type) -- do not edit.  Type codes = the values of KernelType: 0 COMMUNICATION, 1 MEMORY, 2 COMPUTATION, 3 OTHER.
+   The wrappers were checked to be:  is_comm_kernel = NCCL_KERNEL_RE.match(name) is not None,  is_memory_kernel = MEMORY_KERNEL_RE.match(name) is not None,
+   is_compute_kernel = not NCCL_COMPUTE_KERNEL_RE.match(name). *)
+From HTA.lib Require Import Base.
+Open Scope Z_scope.
+
+Definition kernel_type_gen (comm mem compute : bool) : Z :=
+  {ktext}.
+
+Definition mem_type_gen (name : string) : string :=
+  {mtext}.
+'''
+    write_if_changed(os.path.join(GEN, "KernelRules_gen.v"), text)
+    return "gen/KernelRules_gen.v"
